@@ -70,17 +70,31 @@ impl From<BackendError> for AccountError {
 pub struct ClientStorage { _p: () }
 impl ClientStorage {
     pub uninterp spec fn gst(&self) -> StoreV;
+    pub uninterp spec fn glogin(&self) -> Summary;
 }
 impl ClientBaseStorage for ClientStorage {
     open spec fn st(&self) -> StoreV { self.gst() }
+    open spec fn login_sum(&self) -> Summary { self.glogin() }
     /// storage.rs -> filesystem.rs / database.rs `authenticated_user`: `self.authenticated_user.as_ref()`
     #[verifier::external_body]
     fn authenticated_user(&self) -> (r: Option<&Identity>) { unimplemented!() }
+    /// storage.rs -> `&self.account_id`
+    #[verifier::external_body]
+    fn account_id(&self) -> &AccountId { unimplemented!() }
+    /// storage.rs -> `self.authenticated.as_mut()`
+    #[verifier::external_body]
+    fn authenticated_user_mut(&mut self) -> (r: Option<&mut Identity>) { unimplemented!() }
 }
 impl ClientVaultStorage for ClientStorage {
     /// storage.rs -> filesystem.rs / database.rs `summaries`: `&self.summaries`
     #[verifier::external_body]
     fn summaries(&self, _t: Internal) -> (r: &Vec<Summary>) { unimplemented!() }
+    /// storage.rs -> `&mut self.summaries`
+    #[verifier::external_body]
+    fn summaries_mut(&mut self, _t: Internal) -> (r: &mut Vec<Summary>) { unimplemented!() }
+    /// storage.rs -> filesystem.rs:248 / database.rs `write_vault`
+    #[verifier::external_body]
+    fn write_vault(&mut self, vault: &Vault, _t: Internal) -> (r: ClResult<Vec<u8>>) { unimplemented!() }
 }
 impl ClientFolderStorage for ClientStorage {
     /// storage.rs -> `&self.folders`
@@ -95,6 +109,15 @@ impl ClientFolderStorage for ClientStorage {
     /// storage.rs:320 -> filesystem.rs:354 / database.rs (same text)
     #[verifier::external_body]
     fn open_folder(&mut self, folder_id: &VaultId) -> (r: ClResult<ReadEvent>) { unimplemented!() }
+    /// storage.rs -> filesystem.rs:326 / database.rs `new_folder`
+    #[verifier::external_body]
+    fn new_folder(&self, vault: &Vault, _t: Internal) -> (r: ClResult<Folder>) { unimplemented!() }
+    /// storage.rs -> filesystem.rs:365 / database.rs `close_folder`
+    #[verifier::external_body]
+    fn close_folder(&mut self) { unimplemented!() }
+    /// storage.rs -> `Ok(self.account_log.clone())`
+    #[verifier::external_body]
+    fn account_log(&mut self) -> (r: ClResult<&mut VRwLock<AccountEventLog>>) { unimplemented!() }
 }
 impl ClientAccountStorage for ClientStorage {
     /// storage.rs -> `self.external_file_manager.as_mut()`
@@ -103,6 +126,9 @@ impl ClientAccountStorage for ClientStorage {
     /// storage.rs -> `self.index.as_ref()`
     #[verifier::external_body]
     fn search_index(&self) -> (r: Option<&AccountSearch>) { unimplemented!() }
+    /// storage.rs: the trait's default `delete_folder` (traits.rs:1226; neither backend overrides it)
+    #[verifier::external_body]
+    fn delete_folder(&mut self, folder_id: &VaultId, apply_event: bool) -> (r: ClResult<Vec<Event>>) { unimplemented!() }
 }
 
 // ---- events ---------------------------------------------------------------------------------
@@ -111,6 +137,8 @@ pub enum Event {
     Read(VaultId, ReadEvent),
     Write(VaultId, WriteEvent),
     MoveSecret(ReadEvent, WriteEvent, WriteEvent),
+    Account(AccountEvent),
+    Folder(AccountEvent, WriteEvent),
     Other,
 }
 /// event.rs:64 `impl TryFrom<Event> for (VaultId, WriteEvent)`: `Event::Write(vault_id, event) => Ok((vault_id, event)),
